@@ -5,7 +5,7 @@ Default == <<"time", "level", "caller", "message">>
 PartsChoices == {Default, <<"message", "level">>, <<"level", "x", "message">>, <<>>}
 PExclChoices == {<<>>, <<"time">>, <<"level", "caller">>}
 FOrderChoices == {<<>>, <<"b", "a">>, <<"z", "missing">>, <<"error", "Z">>, <<"a", "error">>}
-FExclChoices == {<<>>, <<"a">>, <<"error", "z">>}
+FExclChoices == {<<>>, <<"a">>, <<"z", "error">>}     \* the two-name list is NOT in alphabetical order: the writer must not rely on (or establish) an order of the caller's list
 AllConfigs == {Cfg(p, pe, fo, fe) : p \in PartsChoices, pe \in PExclChoices, fo \in FOrderChoices, fe \in FExclChoices}
 QuickNames == {"", "a", "b", "error", "z", "Z", "level", "message", "time", "x"}
 ThoroughNames == QuickNames \cup {"caller"}
